@@ -1,8 +1,8 @@
 /-
   Layer `Note`, invariant family T: parent pointers are backed by the children lists
   (`c->parent == p` implies `c` is in `p->children`).  This direction holds unconditionally (no
-  appeal to the locks); the converse needs the locking discipline and can be broken by stale
-  `parent` locals (defect F7).
+  appeal to the locks); the converse (`InvForest.c2p`, Proofs/NoteRelF4.lean) needs the locking
+  discipline.
 -/
 import NsyncVerif.Proofs.NoteInvU
 
@@ -42,7 +42,7 @@ theorem step_child_lost {s s' : State} {e : Event} (hS : InvS s) (hL : InvL s)
     rw [hpc0] at hcl0
     have hne : p0 ≠ n0 := (hcl0.2.1 p0 rfl).2
     simp only [setPc_notes, link_f_children, eraseChild_f_children, acquire_f_children,
-      link_f_parent] at hc' ⊢
+      link_f_parent, setAdopted_f_children, setAdopted_f_parent] at hc' ⊢
     by_cases hpn : p = n0
     · subst hpn
       rw [if_neg (fun h => hne h.symm), if_pos rfl] at hc'
@@ -75,7 +75,7 @@ theorem step_child_lost {s s' : State} {e : Event} (hS : InvS s) (hL : InvL s)
     · next hp =>
       have := eq_of_mem_of_not_mem_erase hc hc'
       subst this
-      simp
+      simp [hp]
     · exact absurd hc hc'))
   -- malloc
   · rename_i k hfresh
@@ -111,7 +111,8 @@ theorem step_parent_linked {s s' : State} {e : Event} (hs : step s e = .ok s') (
     · left; exact hc))
   -- nsync_note_free adopts a child
   all_goals (try (
-    simp only [setPc_notes, link_f_parent, eraseChild_f_parent, acquire_f_parent] at hc
+    simp only [setPc_notes, link_f_parent, eraseChild_f_parent, acquire_f_parent,
+      setAdopted_f_parent] at hc
     split at hc
     · next hp =>
       subst hp
